@@ -521,6 +521,35 @@ func (ex *Exec) Run() {
 		ex.st = final
 		// on the paths that registered it, and only while the process is alive or unwinding a panic (os.Exit skips deferred calls)
 		alive := Or(Term{"(< " + final.ghost["exitCode"].S + " 0)", SBool}, final.ghost["panicking"])
+		if d.recoverLit != nil {
+			// recover() is non-nil exactly on the paths unwinding a panic: the process goes on (no exit status yet), the body of
+			// the if runs, and the function returns normally
+			pan := And(d.regPC, Term{"(>= " + final.ghost["exitCode"].S + " 0)", SBool}, final.ghost["panicking"])
+			a, b := ex.fork(pan)
+			ex.st = a
+			if !a.dead() {
+				ex.st.ghost["panicking"] = TFalse
+				ex.st.ghost["exitCode"] = IntLit(-1)
+				ifs := d.recoverLit.Body.List[0].(*ast.IfStmt)
+				if as, ok := ifs.Init.(*ast.AssignStmt); ok && len(as.Lhs) == 1 {
+					if id, ok := as.Lhs[0].(*ast.Ident); ok && id.Name != "_" {
+						if v, ok := ex.info.Defs[id].(*types.Var); ok {
+							r := ex.U.Fresh("recovered", SAny)
+							ex.fact(Not(Eq(r, Term{"nilAny", SAny})))
+							ex.declare(v, r)
+						}
+					}
+				}
+				ex.inDefer = true
+				ex.block(ifs.Body.List)
+				ex.inDefer = false
+			}
+			final = ex.merge(ex.st, b)
+			if final == nil || ex.unsupported != "" {
+				return
+			}
+			continue
+		}
 		a, b := ex.fork(And(d.regPC, alive))
 		ex.st = a
 		ex.preArgs = append([]Term{}, d.args...)
@@ -532,6 +561,11 @@ func (ex *Exec) Run() {
 		if final == nil || ex.unsupported != "" {
 			return
 		}
+	}
+	if fi.Name == "main.main" {
+		// the program's main function returned without ending the process: exit status 0
+		ec := final.ghost["exitCode"]
+		final.ghost["exitCode"] = Ite(Term{"(< " + ec.S + " 0)", SBool}, IntLit(0), ec)
 	}
 	ex.st = final
 	names := copyNames(ex.params)
